@@ -804,13 +804,14 @@ SDgetanndatainfo(int32 sdsid, ann_type annot_type, unsigned size, int32 *offseta
             if (offsetarray == NULL || lengtharray == NULL)
                 HGOTO_DONE(num_annots);
 
+            /* Allocate space for list of annotation IDs on this tag/ref; ANannlist
+               delivers all of them, however few the caller has room for */
+            if ((dannots = malloc((size_t)num_annots * sizeof(int32))) == NULL)
+                HGOTO_ERROR(DFE_NOSPACE, FAIL);
+
             /* If more annotations than space in user's buffers, only fill up buffers */
             if (num_annots > size)
                 num_annots = (int)size;
-
-            /* Allocate space for list of annotation IDs on this tag/ref */
-            if ((dannots = malloc((size_t)num_annots * sizeof(int32))) == NULL)
-                HGOTO_ERROR(DFE_NOSPACE, FAIL);
 
             /* Get list of annotations IDs on this tag/ref */
             if (ANannlist(an_id, annot_type, elem_tag, elem_ref, dannots) == FAIL)
